@@ -6,7 +6,7 @@ import ast
 from sa.cfg import case_literals
 from sa.context import Context, names_in
 from sa.dataflow import TagFlow, param_tags
-from sa.model import AnalysisError, dotted, short
+from sa.model import AnalysisError, clone, dotted, short
 from sa.rules import common as C
 
 OPTIONS = ["split", "shards", "custom_metadata_type_limit", "shard_filter"]
@@ -248,9 +248,9 @@ def check_select(ctx: Context, rep, sel) -> None:
         class T(ast.NodeTransformer):
             def visit_Name(self, n):
                 if isinstance(n.ctx, ast.Load) and n.id in defs and depth < 5:
-                    return expand_in(copy.deepcopy(defs[n.id]), defs, depth + 1)
+                    return expand_in(clone(defs[n.id]), defs, depth + 1)
                 return n
-        return T().visit(copy.deepcopy(e))
+        return T().visit(clone(e))
 
     cmps = [
         n for n in sel.body_nodes() if isinstance(n, ast.Compare) and
